@@ -763,8 +763,9 @@ impl ExecutionState {
     pub fn should_stop() -> bool {
         std::thread::panicking()
             || Self::with(|s| {
-                assert_ne!(s.current_task, ScheduledTask::Finished);
-                s.current_task == ScheduledTask::Stopped
+                // `Finished` is reached here too: a detached task that never got to run is dropped by
+                // `cleanup()` as a plain closure (no unwinding), together with whatever it owns.
+                s.current_task == ScheduledTask::Stopped || s.current_task == ScheduledTask::Finished
             })
     }
 
